@@ -286,11 +286,15 @@ func VerifH_C11_concurrentReaders() {
 	mA, mB, mC := net.HardwareAddr{1, 1, 1, 1, 1, 1}, net.HardwareAddr{2, 2, 2, 2, 2, 2}, net.HardwareAddr{3, 3, 3, 3, 3, 3}
 	cache.Put(ipA, mA)
 	cache.Put(ipB, mB)
-	done := make(chan string, 3)
+	done := make(chan string, 5)
 	go func() { done <- "A:" + string(cache.Get(ipA)) }()
 	go func() { done <- "B:" + string(cache.Get(ipB)) }()
 	go func() { cache.Put(ipC, mC); done <- "C:" + string(cache.Get(ipC)) }()
-	for i := 0; i < 3; i++ {
+	// two more readers: more reader pairs that nothing orders (the native replay relies on the race
+	// detector seeing two unordered accesses; under load a single pair was once serialised through the writer)
+	go func() { done <- "B:" + string(cache.Get(ipB)) }()
+	go func() { done <- "A:" + string(cache.Get(ipA)) }()
+	for i := 0; i < 5; i++ {
 		r := <-done
 		switch r[0] {
 		case 'A':
